@@ -378,12 +378,14 @@ func (m *Module) assignGlobalIDs(validate bool) error {
 	}
 	// Assign global IDs to unnamed aliases.
 	for _, n := range m.Aliases {
+		n.Type() // see above; Alias.LLString reads the cached type
 		if err := setName(n); err != nil {
 			return errors.WithStack(err)
 		}
 	}
 	// Assign global IDs to unnamed IFuncs.
 	for _, n := range m.IFuncs {
+		n.Type() // see above; IFunc.LLString reads the cached type
 		if err := setName(n); err != nil {
 			return errors.WithStack(err)
 		}
